@@ -819,8 +819,6 @@ class SimpleShape(DefinedShape):
             raise ValueError
         if not isinstance(other, SimpleShape):
             return False
-        if float(self) != float(other):
-            return False
         return self.jordans[0] == other.jordans[0]
 
     def __invert__(self) -> SimpleShape:
@@ -1083,8 +1081,6 @@ class DisjointShape(DefinedShape):
     def __eq__(self, other: BaseShape):
         assert isinstance(other, BaseShape)
         if not isinstance(other, DisjointShape):
-            return False
-        if float(self) != float(other):
             return False
         self_subshapes = list(self.subshapes)
         othe_subshapes = list(other.subshapes)
